@@ -10,7 +10,8 @@ from nvsa import j2front, pyfront
 from nvsa.j2front import xs
 from nvsa.report import AnalysisError
 
-ESCAPERS = {"e", "escape", "forceescape", "striptags", "urlencode", "tojson"}
+# striptags is not one of them: Markup.striptags() removes literal tags and then *decodes* entities (`&lt;script&gt;` comes out as `<script>`)
+ESCAPERS = {"e", "escape", "forceescape", "urlencode", "tojson"}
 VOID = {"area", "base", "br", "col", "embed", "hr", "img", "input", "link", "meta", "param", "source", "track", "wbr"}
 
 
@@ -51,16 +52,21 @@ def _tainted_sources(N, expr, taint_filters, tainted_vars):
     return out
 
 
+# filters that keep an escaped string escaped (they neither decode entities nor add markup from their input)
+KEEPS_ESCAPED = {"trim", "indent", "safe", "string", "wordwrap", "center", "lower", "upper", "capitalize", "title", "truncate", "default", "d",
+                 "e", "escape", "forceescape", "remove_blank_lines", "replace"}
+
+
 def _escaped_on_path(N, root, src) -> bool:
-    """is there an escaping filter between src and the output root (src inside the filter's input)?"""
-    # walk from root down to src collecting filters that wrap src
+    """does the value of src pass through an escaping filter on its way to the output root, and is it left escaped by everything that
+    follows (striptags / unescape-like filters, method calls on the escaped value undo the escape)?"""
     def contains(n, target):
         return n is target or any(c is target for c in n.find_all(N.Node))
 
+    chain = []   # nodes from the output root down to src that enclose src
     cur = root
     while cur is not src:
-        if isinstance(cur, N.Filter) and cur.name in ESCAPERS and cur.node is not None and contains(cur.node, src):
-            return True
+        chain.append(cur)
         nxt = None
         for c in cur.iter_child_nodes():
             if contains(c, src):
@@ -69,7 +75,19 @@ def _escaped_on_path(N, root, src) -> bool:
         if nxt is None:
             return False
         cur = nxt
-    return False
+    # innermost-first: the value flows from src outwards
+    escaped = False
+    for n in reversed(chain):
+        flows_through = isinstance(n, N.Filter) and n.node is not None and contains(n.node, src)
+        if flows_through and n.name in ESCAPERS:
+            escaped = True
+        elif escaped:
+            if flows_through and n.name in KEEPS_ESCAPED:
+                continue
+            if isinstance(n, (N.Concat, N.Add, N.CondExpr, N.Output)):
+                continue
+            return False   # something processes the escaped text again: it may decode the entities (striptags, unescape, ...)
+    return escaped
 
 
 def rule_escape(ctx, ts, px):
@@ -261,78 +279,82 @@ def rule_anchor(ctx, ts, px):
         raise AnalysisError("anchor missing: composite branch of filter_tag_id")
     uparam = url.node.args.args[0].arg
     tparam = tag.node.args.args[0].arg
-    asg = {}
-    for n in ast.walk(url.node):
-        if isinstance(n, ast.Assign) and len(n.targets) == 1 and isinstance(n.targets[0], ast.Name):
-            asg.setdefault(n.targets[0].id, []).append(n.value)
-    rets = [r for r in ast.walk(url.node) if isinstance(r, ast.Return) and r.value is not None]
-
-    def resolve(e, depth=0):
-        if isinstance(e, ast.Name) and len(asg.get(e.id, [])) == 1 and depth < 4:
-            return resolve(asg[e.id][0], depth + 1)
-        return e
-
-    def fmt_parts(e):
-        """(format string, argument expressions) of "<lit>".format(...) / f-string"""
-        e = resolve(e)
-        if isinstance(e, ast.Call) and isinstance(e.func, ast.Attribute) and e.func.attr == "format" and isinstance(e.func.value, ast.Constant) \
-                and isinstance(e.func.value.value, str):
-            return e.func.value.value, list(e.args)
-        if isinstance(e, ast.JoinedStr):
-            lit = "".join(v.value if isinstance(v, ast.Constant) else "{}" for v in e.values)
-            return lit, [v.value for v in e.values if isinstance(v, ast.FormattedValue)]
-        return None, []
-
-    ok_ret = len(rets) == 1
-    lit, args = fmt_parts(rets[0].value) if ok_ret else (None, [])
-    ok_ret = ok_ret and lit is not None and "#" in lit and lit.count("{}") == len(args) >= 1
-    ctx.ob(R, m.rel, "filter_url_from_type returns <page part>#<fragment>", ok_ret, "" if ok_ret else "return shape not recognised", url.node.lineno)
+    from nvsa import symstr
+    rets = [(r, gd) for r, gd in pyfront.walk_guarded(url.node.body) if isinstance(r, ast.Return) and r.value is not None]
+    url_alts = []
+    for r, gd in rets:
+        conds0 = tuple(pyfront.guard_terms([(pyfront.subst_locals(url.node, t), p) for t, p in gd]))
+        for c, pcs in symstr.sym(px, url, r.value):
+            url_alts.append((conds0 + c, symstr.render(pcs, uparam)))
+    tag_alts = [symstr.render(pcs, tparam) for c, pcs in symstr.sym(px, tag, comp_ret)]
+    ok_ret = bool(url_alts) and all(a.count("#") == 1 for _c, a in url_alts)
+    ctx.ob(R, m.rel, "filter_url_from_type returns <page part>#<fragment>", ok_ret, "" if ok_ret else f"return shape not recognised: {[a for _c, a in url_alts]}", url.node.lineno)
     if ok_ret:
-        page_lit = lit.split("#")[0]
-        hard = re.findall(r"[\w-]+\.\w+", page_lit)
+        hard = sorted({h for _c, a in url_alts for h in re.findall(r"[\w-]+\.\w+", re.sub(r"\{[^}]*\}", "", a.split("#")[0]))})
         ctx.ob(R, m.rel, "filter_url_from_type does not hard-code the name of the namespace page", not hard,
                "" if not hard else f"the link names the page file {hard}: the page written for a namespace is <namespace_file_stem><extension> from the "
                "configuration (--output-extension, namespace_file_stem), so the link dangles whenever those are not the defaults", url.node.lineno)
-        frag = resolve(args[-1])
-        # the fragment is filter_tag_id(<instance or its service>) or the same format expression as tag_id's composite branch
-        same = False
-        if isinstance(frag, ast.Call) and isinstance(frag.func, ast.Name) and frag.func.id == "filter_tag_id":
-            same = True
-        else:
-            fl, fa = fmt_parts(frag)
-            cl, ca = fmt_parts(comp_ret)
-            if fl is not None and fl == cl and len(fa) == len(ca):
-                norm = lambda x, pname: ast.unparse(resolve(x)).replace(pname, "<T>")  # noqa: E731
-                tail_same = [norm(a, uparam) for a in fa[1:]] == [norm(a, tparam) for a in ca[1:]]
-                # first argument: <name>.replace(".", "_") where <name> is instance.full_name, possibly reduced to the parent service
-                a0 = resolve(fa[0])
-                head_ok = isinstance(a0, ast.Call) and isinstance(a0.func, ast.Attribute) and a0.func.attr == "replace" \
-                    and [getattr(x, "value", None) for x in a0.args] == [".", "_"] and f"{uparam}.full_name" in ast.unparse(resolve(a0.func.value))
-                same = tail_same and head_ok
-        ctx.ob(R, m.rel, "filter_url_from_type fragment == filter_tag_id (composite)", same,
-               "" if same else f"url fragment is {ast.unparse(frag)} but the element id is {ast.unparse(comp_ret)}: links point at anchors that do not exist",
-               url.node.lineno)
-        # request/response types of a service have no entry of their own: the link must go to the service's entry
-        src = ast.unparse(url.node)
-        svc = "has_parent_service" in src or "parent_service" in src
+        # the fragment is the id filter_tag_id emits for a composite; for the request/response of a service (which have no entry of their
+        # own) it is the id of the service: the same expression with the type's name reduced to its parent
+        PARENT = re.compile(r"<T>\.full_name\.r(?:split\('\.', 1\)\[0\]|partition\('\.'\)\[0\])")
+        same, svc, detail = True, False, ""
+        for conds, a in url_alts:
+            frag = a.split("#", 1)[1]
+            via_tag = re.fullmatch(r"\{filter_tag_id\((.*)\)\}", frag)
+            is_child = any("has_parent_service" in e and p for e, p in conds)
+            if via_tag:
+                arg = via_tag.group(1)
+                good = arg == "<T>" or (is_child and "parent_service" in arg)
+                svc = svc or (is_child and "parent_service" in arg)
+            else:
+                reduced = PARENT.sub("<T>.full_name", frag) if is_child else frag
+                good = reduced in tag_alts
+                svc = svc or (is_child and PARENT.search(frag) is not None)
+            if not good:
+                same, detail = False, f"url fragment is `{frag}` (under {list(conds)}) but the element id is `{' | '.join(tag_alts)}`: links point at anchors that do not exist"
+        ctx.ob(R, m.rel, "filter_url_from_type fragment == filter_tag_id (composite)", same, detail, url.node.lineno)
         ctx.ob(R, m.rel, "filter_url_from_type: a service's request/response link to the service's entry (they have no top-level entry of their own)", svc,
                "" if svc else "the anchor <ns>_<Service>_Request_<v> is never emitted (nested entries get a uniquified id): links to request/response types dangle",
                url.node.lineno)
-    # the link is relative to the page that contains it: one '../' per namespace level of that page
+    # the link is relative to the page that contains it: one '../' per namespace level of that page.  Decided on the rendered text
+    # paths of every macro / template body, with template variables resolved per path: every href that is derived from
+    # url_from_type is exactly <depth prefix><url> - no in-page shortcut, no re-assembled fragment
+    from nvsa import j2text
     N = ts.nodes
     nlink = 0
+    seen_links = set()
     for t in ts.of_lang("html", "templates"):
-        for node, stack in j2front.walk(t.ast):
-            if isinstance(node, N.Output):
-                parts = node.nodes
-                for i, e in enumerate(parts):
-                    if isinstance(e, N.Filter) and e.name == "url_from_type":
-                        nlink += 1
-                        prev = parts[i - 1] if i > 0 else None
-                        ok = prev is not None and not isinstance(prev, N.TemplateData) and "'../'" in xs(prev) and re.search(r"\bT\b", xs(prev)) is not None
-                        ctx.ob(R, t.rel, f"href built from url_from_type is prefixed by the depth of the containing page @ {j2front.construct_path(stack)}", ok,
-                               "" if ok else "url_from_type yields '../<root namespace>/#...', which is right only on the root namespace's page; pages of nested "
-                               "namespaces (<out>/<a>/<b>/index.html) need one more '../' per level", node.lineno)
+        bodies = [("<top>", [n for n in t.ast.body if not isinstance(n, N.Macro)])] + [(nm, mc.body) for nm, mc in ts.macros(t).items()]
+        for where, body in bodies:
+            try:
+                paths = j2text.render_paths(N, body, limit=20000, macros=ts.macros(t))
+            except AnalysisError:
+                raise AnalysisError(f"{t.rel}:{where}: too many static text paths to decide the link rule")
+            for p in paths:
+                ph = dict(p.ph)
+                for mm in re.finditer(r'href="([^"]*)"', p.text):
+                    v = mm.group(1)
+                    names = re.findall(r"Pz\d+z", v)
+                    keys = [ph.get(x, x) for x in names]
+                    if not any("url_from_type" in k for k in keys):
+                        continue
+                    # a placeholder that is still a bare template variable stands for what the variable is bound to on this path
+                    for i_, k_ in enumerate(keys):
+                        if re.fullmatch(r"\w+", k_) and p.binding(k_) is not None:
+                            with j2front.xs_with(j2text._sub_of(N, p)):
+                                keys[i_] = xs(p.binding(k_))
+                    kmap = dict(zip(names, keys))
+                    shown = re.sub(r"Pz\d+z", lambda m_: "{" + kmap.get(m_.group(0), "?") + "}", v)
+                    if (t.rel, where, shown) in seen_links:
+                        continue
+                    seen_links.add((t.rel, where, shown))
+                    nlink += 1
+                    ok = len(names) == 2 and v == names[0] + names[1] and re.fullmatch(r"\((?:[\w.]+) \| url_from_type\)", keys[1]) is not None \
+                        and "'../'" in keys[0] and re.search(r"\bT\b", keys[0]) is not None and "url_from_type" not in keys[0]
+                    ctx.ob(R, t.rel, f"href built from url_from_type is <depth of the containing page><url> @ {where}: {shown[:90]}", ok,
+                           "" if ok else "url_from_type yields '../<root namespace>/#<id>': only that URL, prefixed with one '../' per namespace level of the page, "
+                           "reaches the entry from every page; a bare '#<id>' (or the URL without prefix) dangles on the pages of nested namespaces, which carry "
+                           "only the anchors of their own subtree", None)
     ctx.floor(R + ":links", nlink, 1)
     # in-page references vs ids
     ids = set()
